@@ -8,6 +8,7 @@ import json
 import os
 import re
 import shutil
+import signal
 import subprocess
 import sys
 import time
@@ -64,14 +65,36 @@ def verify(prop, name):
     return 0
 
 
+MARKER = '/verif/build/seeded-applied.json'
+
+
+def recover():
+    """undo a seeded change that an interrupted detect run left in /repo's working tree"""
+    if not os.path.exists(MARKER):
+        return
+    m = json.load(open(MARKER))
+    rc, o = sh('git apply -R --check %s && git apply -R %s' % (m['patch'], m['patch']), cwd='/repo')
+    print('recover: seeded change %s left in /repo by an interrupted run: %s' % (m['name'], 'reverted' if rc == 0 else 'not present (or not revertible): ' + o.strip()[:200]))
+    os.remove(MARKER)
+
+
 def detect(name, props):
     dst = '/verif/seeded/%s' % name
     meta = json.load(open(dst + '/meta.json'))
     if not props:
         props = [meta['property']]
+    recover()
     rc, o = sh('git status --short', cwd='/repo')
     assert not o.strip(), '/repo not clean: ' + o
+    # a run that is killed must not leave the seeded change in /repo (it happened once: S-C04-8 was picked up by
+    # an end-of-round snapshot and became /repo 3b533f5, repaired by fix b5f4564): termination signals unwind
+    # through the finally below, and a marker lets the next run (or a human) undo what a SIGKILL left behind
+    for sig in (signal.SIGTERM, signal.SIGHUP, signal.SIGINT):
+        signal.signal(sig, lambda *_: sys.exit(143))
+    json.dump({'name': name, 'patch': dst + '/patch.diff'}, open(MARKER, 'w'))
     rc, o = sh('git apply %s/patch.diff' % dst, cwd='/repo')
+    if rc != 0:
+        os.remove(MARKER)
     assert rc == 0, o
     res = {}
     try:
@@ -89,6 +112,8 @@ def detect(name, props):
             print(p, 'exit', rc, (viol[0] if viol else 'no violation reported'))
     finally:
         sh('git checkout -- . && git clean -fdq', cwd='/repo')
+        if os.path.exists(MARKER):
+            os.remove(MARKER)
     det = {}
     dpath = dst + '/detection.json'
     if os.path.exists(dpath):
@@ -100,6 +125,9 @@ def detect(name, props):
 
 
 if __name__ == '__main__':
+    if sys.argv[1] == 'recover':
+        recover()
+        sys.exit(0)
     if sys.argv[1] == 'verify':
         sys.exit(verify(sys.argv[2], sys.argv[3]))
     else:
